@@ -23,7 +23,7 @@ class Scenario:
     """one process-model call with everything needed to repeat or vary it"""
 
     def __init__(self, rng, kinds=None, coarse=False, modes=None, models=("NRTL", "UNIQUAC"), max_steps=30,
-                 p_synth=0.35, basis=None, allow_program=True, nonideal_orders=1, builtin_only=False):
+                 p_synth=0.35, basis=None, allow_program=True, nonideal_orders=1, builtin_only=False, default_orders=0.0):
         from pyvaporation.conditions import Conditions
         from pyvaporation.pervaporation import Pervaporation
 
@@ -43,6 +43,11 @@ class Scenario:
             self.mode, self.tp, self.pp = "V", None, None
         self.area = gen.loguniform(rng, 1e-3, 1e2)
         self.m0 = gen.loguniform(rng, 1e-2, 1e3)
+        if rng.random() < 0.12:
+            # plain Python ints are legitimate numbers for a temperature, an area or an amount
+            self.t0 = int(round(self.t0))
+            if rng.random() < 0.5:
+                self.area, self.m0 = rng.randint(1, 20), rng.randint(1, 200)
         self.n = rng.randint(1, max_steps)
         self.precision = gen.loguniform(rng, 1e-6, 1e-3)
         self.coarse = coarse
@@ -61,6 +66,9 @@ class Scenario:
                 "m_first": rng.randint(0, nonideal_orders), "m_second": rng.randint(0, nonideal_orders),
             }
             self.include_zero = rng.random() < 0.2
+            if default_orders and rng.random() < default_orders:
+                for key in rng.sample(sorted(self.orders), rng.randint(1, 4)):
+                    self.orders[key] = None  # the library's default search
             if rng.random() < 0.5:
                 u1, u2 = rng.choice(gen.UNITS), rng.choice(gen.UNITS)
                 self.initial_permeances = (
